@@ -108,7 +108,7 @@ fn run_sub(mut args: Args) -> SubResult {
         )
     } else {
         format!(
-            "all {} canonical tree shapes with <= {max_entries} entries (same generator as c04_sources); {INSTANCES}. Per tree: FileSystem, Embedded (real expand_dir), zip and tar {{dir members, none}} x {{sorted, reversed}} in memory + file-backed; asset types with extension lists [x], [x,y] (string loader), [\"\"], [x,\"\"], [] each also as Arc<T>; every directory id incl. \"\", one absent id and every file id: load_dir, load_rec_dir, iter on an AssetCache (TXY also on a LocalAssetCache); iter_cached after pre-loading every subset of <= 3 ids of the sub-tree (fresh cache each); read_dir fault injected at every directory in turn",
+            "all {} canonical tree shapes with <= {max_entries} entries (same generator as c04_sources); {INSTANCES}. Per tree: FileSystem, Embedded (real expand_dir), zip and tar {{dir members, none}} x {{sorted, reversed}} in memory + file-backed; asset types with extension lists [x], [x,y] (string loader), [\"\"], [x,\"\"], [] each also as Arc<T>; every directory id incl. \"\", one absent id and every file id: load_dir, load_rec_dir, iter on an AssetCache (TXY also on a LocalAssetCache); iter_cached after pre-loading every subset of <= 3 ids of the sub-tree (fresh cache each: AssetCache for T, LocalAssetCache for Arc<T>); read_dir fault injected at every directory in turn (same cache kinds)",
             shapes.len()
         )
     };
